@@ -202,6 +202,13 @@ def corpus(rng, quick):
         "Iterator": {"StartAt": "C", "States": {"C": {"Type": "Choice", "Choices": [{"Variable": "$.x", "NumericEquals": 2, "Next": "F"}], "Default": "A"},
                                                  "A": inv("f1"), "F": {"Type": "Fail", "Error": "Bad", "Cause": "item"}}}}}},
                  {"items": [{"x": 1}, {"x": 2}, {"x": 3}]}, {"f1": [("ok",)]}, {"f1": 60}))
+    # the execution's time limit runs out inside a Wait / a Task / a fan-out with both: the execution fails with States.Timeout
+    # and nothing of it is left behind (cancellers, timers, held events)
+    out.append(S("seq-wait-exec-timeout", {"TimeoutSeconds": 2, "StartAt": "W", "States": {"W": {"Type": "Wait", "Seconds": 10, "End": True}}}, {"x": 1}))
+    out.append(S("seq-task-exec-timeout", {"TimeoutSeconds": 2, "StartAt": "T", "States": {"T": T("f1")}}, {"x": 1}, {"f1": [("ok",)]}, {"f1": 9000}))
+    out.append(S("par-wait-task-exec-timeout", {"TimeoutSeconds": 2, "StartAt": "P", "States": {"P": {"Type": "Parallel", "End": True, "Branches": [
+        {"StartAt": "W", "States": {"W": {"Type": "Wait", "Seconds": 10, "End": True}}},
+        {"StartAt": "T", "States": {"T": T("f1")}}]}}}, {"x": 1}, {"f1": [("ok",)]}, {"f1": 9000}))
     # definitions the engine cannot interpret at one site (C18's subject; here only the lifecycle / ledger / history laws are
     # evaluated, the reference semantics is not asked): the empty string as a branch's StartAt or as a transition target —
     # an event whose state name is empty is what the engine takes for the start of a new execution
